@@ -297,6 +297,10 @@ fn fam_files(ctx: &CaseCtx, cov: &mut Cov) -> CaseOut {
     if ctx.index % 3 != 0 {
         params.checks = vec![1, 4];
     }
+    // every tenth base file has up to 8 blocks (faults then also hit later blocks)
+    if ctx.index % 10 == 9 {
+        params.max_blocks = 8;
+    }
     let (spec, desc) = gen_xz(&mut rng, &params);
     let (file, layout) = spec.serialize();
     let plain = spec.plain();
